@@ -175,20 +175,31 @@ class TrimKnob:
         self.active = False
 
     def __enter__(self):
+        self.named = {}
         if self.threshold is None:
             return self
+        # (a) the literal inside the function's code object -> clone with the constant replaced
         clone = clone_with_trim_threshold(self.mod, self.threshold)
-        if clone is None:
-            return self
-        self.orig = self.mod.ccsds_generator
-        self.mod.ccsds_generator = clone
-        self.active = True
+        if clone is not None:
+            self.orig = self.mod.ccsds_generator
+            self.mod.ccsds_generator = clone
+            self.active = True
+        # (b) the same value kept as a module-level named constant -> set it for the duration of the run
+        for name, val in list(self.mod.__dict__.items()):
+            if type(val) is int and val == TRIM_CONST and not name.startswith("__"):
+                self.named[name] = val
+                self.mod.__dict__[name] = self.threshold
+                self.active = True
         return self
 
     def __exit__(self, *exc):
-        if self.active:
+        if self.orig is not None:
             self.mod.ccsds_generator = self.orig
-            self.active = False
+            self.orig = None
+        for name, val in self.named.items():
+            self.mod.__dict__[name] = val
+        self.named = {}
+        self.active = False
         return False
 
 
